@@ -1257,10 +1257,9 @@ export class TupleRuntype extends BaseRuntype {
     popPath(ctx);
     return annotateSchema(this.metadata, {
       type: "array",
-      prefixItems,
+      // prefixItems must be a non-empty array, and alone says nothing about arrays that are too short
+      ...(prefixItems.length > 0 ? { prefixItems, minItems: prefixItems.length } : {}),
       items,
-      // prefixItems alone says nothing about arrays that are too short
-      ...(prefixItems.length > 0 ? { minItems: prefixItems.length } : {}),
     } as any);
   }
   validate(ctx: ValidateContext, input: unknown): boolean {
